@@ -130,8 +130,12 @@ class EncodingDB:
         cls,
         name: str,
         diff: Optional[Iterable[object]] = None,
+        base: Optional[Dict[int, str]] = None,
     ) -> Dict[int, str]:
-        cid2unicode = cls.encodings.get(name, cls.std2unicode)
+        if base is not None:
+            cid2unicode = base
+        else:
+            cid2unicode = cls.encodings.get(name, cls.std2unicode)
         if diff:
             cid2unicode = cid2unicode.copy()
             cid = 0
